@@ -45,8 +45,10 @@ def item_of(w, p, dump, kind, x):
         m = _re.match(r'msg(\d+)$', getattr(x, 'composed_message', '') or '')
         return {'i': int(m.group(1)) + 1 if m else -1, 'proc': parse_proc(p._format_process(x.thread_identifier))}
     if kind == 'tr':
+        # tn: the thread name a record ABOUT a thread shows (terminate record) - text that reads what other records taught
+        tn = list(str(getattr(x, 'name', '') or '').encode()) if type(x).__name__ == 'TraceDataThreadTerminate' else []
         return {'k': dump.k_of(x.ktraces[-1]), 'first': dump.k_of(x.ktraces[0]),
-                'proc': parse_proc(p._format_process(x.ktraces[0].tid))}
+                'proc': parse_proc(p._format_process(x.ktraces[0].tid)), 'tn': tn}
     frames = []
     for f in x.frames:
         if f.uuid is None:
@@ -355,7 +357,7 @@ def run_session(rnd, w, dumps, kinds, gen_cfg, nacts=14, max_gens=4, scenarios=N
 # to the check of the property that pins them (counted in extra.deviations_left_to_other_checks)
 _SEL = {'listing-ended-early', 'listing-has-extra-item', 'wrong-event', 'wrong-trace', 'wrong-log-record', 'wrong-sample',
         'clean-listing-differs-from-reference', 'selection-differs-from-reference', 'listing-differs-from-reference'}
-SESSION_OWN = {'C07': set(), 'C06': _SEL | {'process-column'}, 'C12': _SEL, 'C13': _SEL | {'process-column'}, 'C14': {'process-column'},
+SESSION_OWN = {'C07': set(), 'C06': _SEL | {'process-column'}, 'C12': _SEL, 'C13': _SEL | {'process-column', 'wrong-thread-name'}, 'C14': {'process-column'},
                'C15': _SEL | {'attribution'}, 'C19': {'wrong-name-table'}}
 
 
@@ -543,4 +545,4 @@ def replay_tlc_schedules(ctx, rnd, n, kinds_tla, dumpset, gen_dump, tag):
         ctx.violation('%s/tlc-schedule/%s' % (ctx.prop, clause.partition('@')[0]), 'schedule %s: %s; script: %s' % (oid, clause, ' ; '.join(script)[:1500]),
                       {'kind': 'session', 'clause': clause, 'script': script, 'files_hex': [d.blob.hex() for d in dumps],
                        'streams': [describe(w, d.stream) for d in dumps]})
-    ctx.extra.setdefault('sessions', {})['tlc_schedules_replayed'] = nv
+    ctx.extra.setdefault('sessions', {})['tlc_schedules_replayed'] = ctx.extra.get('sessions', {}).get('tlc_schedules_replayed', 0) + nv
